@@ -169,3 +169,13 @@ Proof.
   - exact (P CWarmupActionSample I).
   - exact (P (CEnvDynamics 0) Hn).
 Qed.
+
+(* re-seeding: whatever was (or was not) seeded at construction, set_random_seed(s) seeds everything with s *)
+Lemma seeds_from_length' s n : length (seeds_from s n) = n.
+Proof. apply seeds_from_length. Qed.
+Lemma reseed_all_seeded n b s :
+  let x := run (init n) (setup b ++ setup (Some s)) in
+  s_py x = Seeded s /\ s_np x = Seeded s /\ s_torch x = Seeded s /\ s_aspace x = Seeded s /\ s_pending x = seeds_from s n.
+Proof.
+  destruct b as [b|]; cbn; rewrite ?seeds_from_length, ?repeat_length; repeat split; reflexivity.
+Qed.
